@@ -67,6 +67,12 @@ pub struct Hier {
     pub sibling_name: Option<Name>,
     /// (owner, type, rdata) -> indices of the zones that publish the record
     pub published: HashMap<(String, u16, Vec<u8>), Vec<usize>>,
+    /// the order in which the honest upstream serves the records of one RRset (record order in a
+    /// response is not covered by any signature): (query key, rdata in served order)
+    pub serve_order: Option<((String, u16), Vec<Vec<u8>>)>,
+    /// name as accepted by `build`
+    pub name: String,
+    status_cache: std::sync::OnceLock<Vec<Status>>,
 }
 
 fn std_queries(leaf: &str) -> Vec<(Name, RecordType)> {
@@ -93,7 +99,8 @@ fn finish(h: Hierarchy, queries: Vec<(Name, RecordType)>, insecure_name: Option<
             published.entry((r.name.to_lowercase().to_ascii(), u16::from(r.record_type()), rdata_bytes(r))).or_default().push(zi);
         }
     }
-    Hier { h: Arc::new(h), queries, insecure_name: insecure_name.map(n), sibling_name: sibling_name.map(n), published }
+    let name = h.name.clone();
+    Hier { h: Arc::new(h), queries, insecure_name: insecure_name.map(n), sibling_name: sibling_name.map(n), published, serve_order: None, name, status_cache: std::sync::OnceLock::new() }
 }
 
 pub fn names(thorough: bool) -> Vec<&'static str> {
@@ -114,9 +121,63 @@ pub fn names(thorough: bool) -> Vec<&'static str> {
     v
 }
 
+/// The DS kinds of the `ds-mix:<sequence>` hierarchies: M = supported and matching the zone key,
+/// N = supported but for another key, A = unsupported algorithm, D = unsupported digest type.
+pub const DS_KINDS: [char; 4] = ['M', 'N', 'A', 'D'];
+
+/// All sequences of 1..3 distinct DS kinds = every DS RRset composition in every served order.
+pub fn ds_mix_sequences() -> Vec<String> {
+    let mut out = vec![];
+    for a in DS_KINDS {
+        out.push(a.to_string());
+        for b in DS_KINDS {
+            if b != a {
+                out.push(format!("{a}{b}"));
+                for c in DS_KINDS {
+                    if c != a && c != b {
+                        out.push(format!("{a}{b}{c}"));
+                    }
+                }
+            }
+        }
+    }
+    out
+}
+
+fn ds_of_kind(kind: char, zone: &str, key: KeyMat) -> Record {
+    match kind {
+        'M' => ds_for(zone, key, F_KSK),
+        'N' => ds_for(zone, keys::ED[7], F_KSK),
+        'A' => ds_unsupported_alg(zone, key, F_KSK),
+        'D' => ds_unsupported_digest(zone, key, F_KSK),
+        other => panic!("unknown DS kind {other}"),
+    }
+}
+
+/// root signed, t. signed with ed01, DS RRset of t. = the given kinds, served in that order;
+/// u. insecure, e. secure.
+fn build_ds_mix(name: &str, seq: &str) -> Hier {
+    let ed = keys::ED;
+    let nsec = Some(NxProofKind::Nsec);
+    let mut rrec = vec![ns("t."), ns("u."), ns("e."), ds_for("e.", ed[3], F_KSK)];
+    let dss: Vec<Record> = seq.chars().map(|k| ds_of_kind(k, "t.", ed[1])).collect();
+    rrec.extend(dss.iter().cloned());
+    let root = ZoneDef { origin: Name::root(), keys: vec![(ed[0], F_KSK)], nx: nsec.clone(), records: rrec };
+    let t = ZoneDef { origin: n("t."), keys: vec![(ed[1], F_KSK)], nx: nsec.clone(), records: leaf_records("t.", 10) };
+    let u = ZoneDef { origin: n("u."), keys: vec![], nx: None, records: leaf_records("u.", 40) };
+    let e = ZoneDef { origin: n("e."), keys: vec![(ed[3], F_KSK)], nx: nsec, records: leaf_records("e.", 30) };
+    let q = vec![(n("www.t."), RecordType::A), (n("nx.t."), RecordType::A), (n("t."), RecordType::DS), (n("t."), RecordType::DNSKEY)];
+    let mut h = finish(Hierarchy::build(name, &[root, t, u, e], &[(0, 0)]), q, Some("x.u."), Some("www.e."));
+    h.serve_order = Some((("t.".to_string(), u16::from(RecordType::DS)), dss.iter().map(rdata_bytes).collect()));
+    h
+}
+
 /// Build a hierarchy by name. Must run with the virtual clock at T0 (signature inception).
 pub fn build(name: &str) -> Hier {
     vsim::reset_clocks(T0);
+    if let Some(seq) = name.strip_prefix("ds-mix:") {
+        return build_ds_mix(name, seq);
+    }
     let ed = keys::ED;
     let root_key = (ed[0], F_KSK);
     let nsec = Some(NxProofKind::Nsec);
@@ -245,9 +306,34 @@ pub fn build(name: &str) -> Hier {
 pub enum Status {
     Secure,
     Insecure,
+    /// a supported DS exists but none matches a key of the child: no validation can succeed
+    Bogus,
 }
 
 impl Hier {
+    /// What the honest upstream serves for `k`: the authoritative answer with the records of the
+    /// designated RRset in this hierarchy's served order.
+    pub fn served(&self, k: &(String, u16), bytes: Vec<u8>) -> Vec<u8> {
+        let Some((key, order)) = &self.serve_order else { return bytes };
+        if key != k {
+            return bytes;
+        }
+        let Ok(mut m) = hickory_proto::op::Message::from_vec(&bytes) else { return bytes };
+        let t = RecordType::from(k.1);
+        let mut set: Vec<Record> = m.answers.iter().filter(|r| r.record_type() == t).cloned().collect();
+        if set.len() != order.len() {
+            return bytes;
+        }
+        set.sort_by_key(|r| order.iter().position(|o| *o == rdata_bytes(r)).unwrap_or(usize::MAX));
+        let mut it = set.into_iter();
+        for r in m.answers.iter_mut() {
+            if r.record_type() == t {
+                *r = it.next().unwrap();
+            }
+        }
+        m.to_vec().unwrap_or(bytes)
+    }
+
     /// Ground truth: is the zone that publishes (name, type) reachable from the trust anchor
     /// through published DS / DNSKEY links, or is there a published insecure delegation (no DS,
     /// or only unsupported DS) on the way?
@@ -259,6 +345,10 @@ impl Hier {
     }
 
     pub fn status_zone(&self, target: usize) -> Status {
+        self.status_cache.get_or_init(|| (0..self.h.zones.len()).map(|z| self.compute_status_zone(z)).collect())[target]
+    }
+
+    fn compute_status_zone(&self, target: usize) -> Status {
         let h = &self.h;
         // walk down from the root
         let mut chain: Vec<usize> = h.zones.iter().enumerate().filter(|(_, z)| z.origin.zone_of(&h.zones[target].origin)).map(|(i, _)| i).collect();
@@ -285,7 +375,18 @@ impl Hier {
             if dss.iter().all(|d| !d.algorithm().is_supported() || !d.digest_type().is_supported()) {
                 return Status::Insecure;
             }
-            assert!(h.zones[c].signed(), "hierarchy {} has a DS for an unsigned zone", h.name);
+            // a DS "matches" when it is the DS this file constructs for one of the child's keys
+            let matching = dss.iter().any(|d| {
+                d.algorithm().is_supported()
+                    && d.digest_type().is_supported()
+                    && h.zones[c].keys.iter().any(|k| match &ds_for(&corigin.to_ascii(), k.mat, k.flags).data {
+                        RData::DNSSEC(DNSSECRData::DS(m)) => m == *d,
+                        _ => false,
+                    })
+            });
+            if !matching {
+                return Status::Bogus;
+            }
         }
         Status::Secure
     }
